@@ -25,6 +25,7 @@ From CGV Require Import Base.NxGraph Resolve.GraphOps Hydro.SquashDefs Hydro.Hyd
 From CGV Require Hydro.Hydrogens Hydro.Squash.
 From CGV Require Import Compose.GraphAdj Compose.CutModel Compose.CutSkeleton.
 From CGV Require Compose.Statements Compose.TextCut Compose.TextCutExamples Reader.Grammar Resolve.Pipeline Dialect.DriverFaults.
+From CGV Require Compose.AnyCut Compose.TextIso Compose.TextIsoExamples Resolve.PipelineFull.
 Import ListNotations.
 Open Scope Z_scope.
 
@@ -186,6 +187,56 @@ Example C01_text_level_nonvacuous :
     skeleton CGV.Compose.TextCutExamples.ea_cut true m2 /\ Squash.squash_atoms m2 = Ok m2).
 Proof. split; [exact CGV.Compose.TextCutExamples.ea_string_text|exact CGV.Compose.TextCutExamples.ea_text_level_skeleton]. Qed.
 
+(** "wherever the cuts are placed, however each fragment's SMILES is written and in whatever order the base graph lists
+    its nodes" (Compose/AnyCut.v, TextIso.v).  [same_mol C1 C2]: two cuts of ONE molecule - same atoms with the same
+    payload but `hcount` (the template's, which depends on the cut placement), same bond list, same atom set; partitions,
+    order of the parts, order of the atoms inside a part (start atom, branch order) and descriptor orders are free.
+    Graph level: the returned molecules of two whole all-atom resolve steps on such cuts are isomorphic by the explicit map
+    [iso].  Text level: two STRINGS describing such cuts ([written]: the hypotheses of C01_text_level_skeleton as a record,
+    decided by [writtenb]) are parsed by the driver model, and whenever both first resolve() return the returned molecules
+    are isomorphic.  Hypotheses kept between the runs: Hydro's contract for the two aromaticity transcripts and
+    [corr_orders] (the same bond gets the same order in both). *)
+Theorem C01_returned_graphs_iso_any : forall C1 C2 fd1 fd2 prev1 prev2 car1 car2 fo1 fo2 ms1 ms2,
+  wf_cut C1 -> CGV.Compose.AnyCut.same_mol C1 C2 -> wf_cut C2 ->
+  CGV.Compose.OrderIndep.heavy_payload C1 -> CGV.Compose.OrderIndep.heavy_payload C2 ->
+  templates_ok C1 fd1 -> is_base C1 (CGV.Compose.ComposeFlat.next_meta prev1) ->
+  templates_ok C2 fd2 -> is_base C2 (CGV.Compose.ComposeFlat.next_meta prev2) ->
+  PipelineFull.resolve_step_full true true fd1 prev1 (Some car1) = Ok fo1 ->
+  PipelineFull.resolve_step_full true true fd2 prev2 (Some car2) = Ok fo2 ->
+  CGV.Compose.Transcript.transcript_ok (PipelineFull.fo_m3 fo1) car1 -> CGV.Compose.Transcript.transcript_ok (PipelineFull.fo_m3 fo2) car2 ->
+  CGV.Compose.CutIsoCar.corr_orders C1 C2 car1 car2 ->
+  sort_mapping (PipelineFull.fo_m4 fo1) = Ok ms1 -> sort_mapping (PipelineFull.fo_m4 fo2) = Ok ms2 ->
+  CGV.Compose.CompletionCar.completion_car C1 car1 (PipelineFull.fo_m4 fo1) /\
+  CGV.Compose.CompletionCar.completion_car C2 car2 (PipelineFull.fo_m4 fo2) /\
+  CGV.Compose.CutIsoCar.returned_iso_car CGV.Compose.ReturnedIso.after_sort_key C1 C2 car1 (PipelineFull.fo_m4 fo1) car2 (PipelineFull.fo_m4 fo2)
+    (PipelineFull.fo_mol fo1) (PipelineFull.fo_mol fo2) ms1 ms2.
+Proof. exact CGV.Compose.AnyCut.returned_graphs_iso_any. Qed.
+Theorem C01_text_returned_iso : forall fo C1 C2 a1 defs1 B1 a2 defs2 B2,
+  wf_cut C1 -> wf_cut C2 -> CGV.Compose.AnyCut.same_mol C1 C2 ->
+  CGV.Compose.OrderIndep.heavy_payload C1 -> CGV.Compose.OrderIndep.heavy_payload C2 ->
+  CGV.Compose.TextIso.written fo C1 a1 defs1 B1 -> CGV.Compose.TextIso.written fo C2 a2 defs2 B2 ->
+  exists st1 fd1 st2 fd2,
+    CGV.Compose.TextCut.from_text fo (CGV.Compose.TextCut.cut_string a1 defs1) = Ok st1 /\ Pipeline.st_dicts st1 = [fd1] /\
+    CGV.Compose.TextCut.from_text fo (CGV.Compose.TextCut.cut_string a2 defs2) = Ok st2 /\ Pipeline.st_dicts st2 = [fd2] /\
+    forall car1 car2 fo1 fo2 ms1 ms2,
+      PipelineFull.resolve_step_full (Pipeline.st_legacy st1) (Pipeline.is_all_atom st1) fd1 (Pipeline.st_mol st1) (Some car1) = Ok fo1 ->
+      PipelineFull.resolve_step_full (Pipeline.st_legacy st2) (Pipeline.is_all_atom st2) fd2 (Pipeline.st_mol st2) (Some car2) = Ok fo2 ->
+      CGV.Compose.Transcript.transcript_ok (PipelineFull.fo_m3 fo1) car1 -> CGV.Compose.Transcript.transcript_ok (PipelineFull.fo_m3 fo2) car2 ->
+      CGV.Compose.CutIsoCar.corr_orders C1 C2 car1 car2 ->
+      sort_mapping (PipelineFull.fo_m4 fo1) = Ok ms1 -> sort_mapping (PipelineFull.fo_m4 fo2) = Ok ms2 ->
+      CGV.Compose.CutIsoCar.returned_iso_car CGV.Compose.ReturnedIso.after_sort_key C1 C2 car1 (PipelineFull.fo_m4 fo1) car2 (PipelineFull.fo_m4 fo2)
+        (PipelineFull.fo_mol fo1) (PipelineFull.fo_mol fo2) ms1 ms2.
+Proof. exact CGV.Compose.TextIso.text_returned_iso. Qed.
+Definition C01_same_mol_test_sound := CGV.Compose.TextIso.same_molb_sound.
+Definition C01_written_test_sound := CGV.Compose.TextIso.writtenb_sound.
+Definition C01_same_mol_of_pperm := CGV.Compose.AnyCut.same_mol_of_pperm.
+(** non-vacuity: ethyl acetate as {[#A][#B][#C]}.{#A=O=C(C)[$a],#B=[$a]O[>b],#C=[<b]CC} and as
+    {[#Y][#X]}.{#X=CC(=O)O[>b],#Y=[<b]CC}: all hypotheses hold; both resolve() of the model return with the identity
+    transcript and the map (not the identity) preserves adjacency, orders and elements of the 14-atom molecules *)
+Definition C01_text_returned_iso_nonvacuous := CGV.Compose.TextIsoExamples.ea_text_returned_iso.
+Definition C01_text_returned_iso_hypotheses := CGV.Compose.TextIsoExamples.ea_two_descriptions.
+Definition C01_text_returned_iso_executed := CGV.Compose.TextIsoExamples.ea_returned_iso_executed.
+
 Print Assumptions C01_bonding_partial.
 Print Assumptions C01_bonding_step.
 Print Assumptions C01_disjointness_test_sound.
@@ -215,3 +266,8 @@ Print Assumptions C01_text_level_skeleton.
 Print Assumptions C01_text_templates_ok.
 Print Assumptions C01_text_defs_test_sound.
 Print Assumptions C01_text_level_step.
+Print Assumptions C01_returned_graphs_iso_any.
+Print Assumptions C01_text_returned_iso.
+Print Assumptions C01_same_mol_test_sound.
+Print Assumptions C01_written_test_sound.
+Print Assumptions C01_text_returned_iso_executed.
